@@ -183,6 +183,12 @@ pub fn chunk_marks(stream: &[u8]) -> Vec<usize> {
     }
     marks.sort();
     marks.dedup();
+    // many-chunk streams: the marks around the first and the last four chunks and about forty in between
+    if marks.len() > 96 {
+        let n = marks.len();
+        let step = (n - 48) / 40 + 1;
+        marks = marks.iter().enumerate().filter(|(i, _)| *i < 24 || *i + 24 >= n || i % step == 0).map(|(_, m)| *m).collect();
+    }
     marks
 }
 
@@ -376,6 +382,16 @@ fn large_chunk_streams(thorough: bool) -> Vec<(String, Vec<u8>)> {
         }
         out.push((format!("library serializer, chunk size {}, messages of {:?} bytes", cs, lens), bytes));
     }
+    // many chunks in one message (per-call work budgets): the default chunk size and a long message
+    {
+        let mut ser = ChunkSerializer::new();
+        let mut bytes = Vec::new();
+        for (i, len) in [70_000usize, 5, 66_000].iter().enumerate() {
+            let p = MessagePayload { timestamp: RtmpTimestamp::new(40 * i as u32), type_id: if i == 1 { 8 } else { 9 }, message_stream_id: 1, data: Bytes::from(pattern(200 + i as u32, *len)) };
+            bytes.extend(ser.serialize(&p, false, false).unwrap().bytes);
+        }
+        out.push(("library serializer, chunk size 128, messages of [70000, 5, 66000] bytes (547 and 516 chunks)".to_string(), bytes));
+    }
     out
 }
 
@@ -502,6 +518,10 @@ fn server_tails(h: &ServerH) -> Vec<(String, Vec<u8>)> {
         ]),
         ("window announcement then media", vec![
             SAct::Raw { msid: 0, type_id: 5, body: vec![0, 0, 0, 40] }, SAct::Audio { sid: 1, ts: 5, len: 50 }, SAct::Ping { ts: 3 }, SAct::Video { sid: 1, ts: 6, len: 40 },
+        ]),
+        ("acknowledgements from the peer, back to back", vec![
+            SAct::Raw { msid: 0, type_id: 3, body: vec![0, 3, 0xD0, 0x90] }, SAct::Raw { msid: 0, type_id: 3, body: vec![0, 7, 0xA1, 0x20] }, SAct::Raw { msid: 0, type_id: 3, body: vec![0, 0x0B, 0x71, 0xB0] },
+            SAct::Ping { ts: 4 }, SAct::Raw { msid: 0, type_id: 3, body: vec![0, 0x0F, 0x42, 0x40] },
         ]),
         ("abort messages between commands", vec![
             SAct::UnknownCommand, SAct::Raw { msid: 0, type_id: 2, body: vec![0, 0, 0, 3] }, SAct::Ping { ts: 9 }, SAct::Raw { msid: 0, type_id: 2, body: vec![0, 0, 0, 2] }, SAct::UnknownCommand, SAct::Ping { ts: 10 },
